@@ -21,6 +21,7 @@ import z3
 from . import core, loader, run, utf8
 
 ROOT = os.path.dirname(os.path.dirname(os.path.abspath(__file__)))
+LAST_REPORT = None
 
 
 def translator_validation():
@@ -271,6 +272,8 @@ def main(argv):
         if not ok:
             status = 3
     report['wall_s'] = round(time.time() - t0, 1)
+    global LAST_REPORT
+    LAST_REPORT = report
     os.makedirs(os.path.join(ROOT, 'selftest'), exist_ok=True)
     if not fast:
         with open(os.path.join(ROOT, 'selftest', 'report.json'), 'w') as f:
